@@ -78,6 +78,16 @@ Verdict(r) ==
                              want == IF Len(t) < w THEN t \o <<0>> ELSE t
                          IN ~(r.cells[k][1] = want /\ r.cells[k][2] = 1)}
            IN IF bad = {} THEN Pass ELSE Fail("text->raw->text", MinOf(bad) - 1)
+      [] r.kind = "declare" ->
+           \* a user declares one value in a bank of his own: probes[k] = <<has lock byte, has latch, types, outcome>>.
+           \* Lockable locations only exist in banks that have a lock byte (IEC 62386-102 9.10.4: the lock byte at
+           \* location 2 is what protects them): a declaration with a lockable location ANYWHERE in the value is refused
+           \* in a bank without one, and every other declaration is accepted
+           LET bad == {k \in 1..Len(r.probes) :
+                         LET p == r.probes[k]
+                             lockable == \E j \in 1..Len(p[3]) : p[3][j] = "L"
+                         IN IF lockable /\ p[1] = 0 THEN p[4] # "LockingNotSupported" ELSE p[4] # "ok"}
+           IN IF bad = {} THEN Pass ELSE Fail("declaration-lockable-without-lock-byte", MinOf(bad))
 
 Judge == LET r == Recs[i]
              v == Verdict(r)
